@@ -198,10 +198,10 @@ def sanitizers(ck):
         ck.note("sanitizer overlay could not be built: %s" % str(e)[:300])
         return
     libasan = subprocess.run(["gcc", "-print-file-name=libasan.so"], capture_output=True, text=True).stdout.strip()
-    kernels = [n for n in sorted(CATALOGUE) if any(k in n for k in ("quantile", "median", "histogram", "intvol", "_joint", "_cspline", "blas", "ve_step", "knn", "Field", "registration.resample"))]
+    kernels = [n for n in sorted(CATALOGUE) if any(k in n for k in ("quantile", "median", "histogram", "intvol", "_joint", "_cspline", "blas", "ve_step", "knn", "Field", "registration.resample", "Forest", "ward", "kmeans"))]
     env = {"LD_PRELOAD": libasan, "ASAN_OPTIONS": "detect_leaks=0:abort_on_error=1:halt_on_error=1", "UBSAN_OPTIONS": "halt_on_error=1:abort_on_error=1",
            "VERIF_SANITIZE_OVERLAY": str(o["dir"])}
-    records, crashes = run_workers(ck, kernels, 2, env_extra=env, tag="san")
+    records, crashes = run_workers(ck, kernels, ck.n(1, 3), env_extra=env, tag="san")
     for c in crashes:
         d = c["during"]
         rep = {"crash": c}
@@ -219,7 +219,6 @@ def run(ck):
     ck.coq_build(extra_dirs=["C02", "C01", "C09", "C12", "C13", "C16", "C17"])
     ck.overlay()
     purity(ck)
-    if ck.thorough():
-        sanitizers(ck)
+    sanitizers(ck)     # both tiers: the sanitizer overlay is cached by content hash; quick drives each kernel entry once
     ck.trust.append("purity half is a check on sampled calls, not a theorem about the code; memory safety of the compiled binary as such "
                     "(compiler, NumPy C-API use, reference counting) is outside what the model can exhibit")
